@@ -485,9 +485,48 @@ func c10Counters(c *Ctx, r *Report) {
 				}
 			}
 			key := fmt.Sprintf("%s/advance-i#%d", fn.Name(), k)
+			// the advance must not pass the fill mark: k == 1 behind the `i == j` loop exit, or k = copy(_, buf[i:j])
+			within := false
+			if bo, ok := a.st.Val.(*ssa.BinOp); ok {
+				switch y := bo.Y.(type) {
+				case *ssa.Const:
+					if y.Value != nil && y.Int64() == 1 {
+						for _, blk := range fn.Blocks {
+							if len(blk.Instrs) == 0 {
+								continue
+							}
+							ifi, ok := blk.Instrs[len(blk.Instrs)-1].(*ssa.If)
+							if !ok {
+								continue
+							}
+							cmp, ok := ifi.Cond.(*ssa.BinOp)
+							if !ok || cmp.Op != token.EQL {
+								continue
+							}
+							px, py := pathOf(cmp.X), pathOf(cmp.Y)
+							if (strings.HasSuffix(px, ".bytes.i") && strings.HasSuffix(py, ".bytes.j")) || (strings.HasSuffix(px, ".bytes.j") && strings.HasSuffix(py, ".bytes.i")) {
+								if blk.Succs[1].Dominates(a.st.Block()) {
+									within = true
+								}
+							}
+						}
+					}
+				case *ssa.Call:
+					if bi, ok := y.Common().Value.(*ssa.Builtin); ok && bi.Name() == "copy" && len(y.Common().Args) == 2 {
+						src := pathOf(y.Common().Args[1])
+						if strings.HasSuffix(src, ".bytes.buf[*d.bytes.i:*d.bytes.j]") {
+							within = true
+						}
+					}
+				}
+			}
+			if paired && !within {
+				r.fail("C10-R2-counter-pairing", key, c.pos(a.st.Pos()), "the read position i advances by "+a.step+" without a bound by the fill mark j (neither `i != j` established for a step of 1 nor a copy count out of buf[i:j]): i can pass j, bytes that were never read are counted as consumed and later reads slice buf[i:j] with i > j")
+				continue
+			}
 			if paired {
 				nPairs++
-				r.ok("C10-R2-counter-pairing", key, c.pos(a.st.Pos()), "i += "+a.step+" is paired with n += "+a.step+" in the same block")
+				r.ok("C10-R2-counter-pairing", key, c.pos(a.st.Pos()), "i += "+a.step+" is paired with n += "+a.step+" in the same block and cannot pass the fill mark j")
 			} else {
 				r.fail("C10-R2-counter-pairing", key, c.pos(a.st.Pos()), "bytes are handed out (i advances by "+a.step+") without counting them in n by the same amount: the data-size limit drifts and the frame is over- or under-read")
 			}
